@@ -103,6 +103,45 @@ package shutterservice
 //@   invariant topicsFromPreds(d, topics, rangeindex)
 //@   invariant@2 topicIndex < 4 && topicIndex == d.LogPredicates[rangeindex + 1].LogValueRef.Offset
 //@
+//@ // ---- C17: encoding. A decoded definition is always valid (UnmarshalBytes validates); the custom RLP coding
+//@ // of a value predicate writes [op, int args..., byte args...] and reads back op, then exactly the number of
+//@ // integer and byte-string items the operator takes, in that order - so under validity (argument counts match
+//@ // the operator) the reader consumes what the writer produced, item by item.
+//@ func (*EventTriggerDefinition).UnmarshalBytes
+//@   requires d != nil
+//@   ensures ret0 == nil ==> validDef(d)
+//@ // (positions 1..len(IntArgs) hold the integer arguments, the remaining len(ByteArgs) positions the byte strings;
+//@ // the element-wise statement for the byte strings is not proved: boxed slices made the invariant step time out)
+//@ func (*ValuePredicate).EncodeRLP
+//@   requires p != nil
+//@   ensures len(elements) == 1 + len(p.IntArgs) + len(p.ByteArgs)
+//@   ensures typeis(elements[0], "uint64") && as(elements[0], "uint64") == p.Op
+//@   ensures forall k :: 0 <= k && k < len(p.IntArgs) ==> (typeis(elements[1 + k], "*big.Int") && as(elements[1 + k], "*big.Int") == p.IntArgs[k])
+//@   invariant@1 len(elements) == 2 + rangeindex
+//@   invariant@1 typeis(elements[0], "uint64") && as(elements[0], "uint64") == p.Op
+//@   invariant@1 forall k :: 0 <= k && k <= rangeindex ==> (typeis(elements[1 + k], "*big.Int") && as(elements[1 + k], "*big.Int") == p.IntArgs[k])
+//@   invariant@2 len(elements) == 2 + len(p.IntArgs) + rangeindex
+//@   invariant@2 typeis(elements[0], "uint64") && as(elements[0], "uint64") == p.Op
+//@   invariant@2 forall k :: 0 <= k && k < len(p.IntArgs) ==> (typeis(elements[1 + k], "*big.Int") && as(elements[1 + k], "*big.Int") == p.IntArgs[k])
+//@   opt content=precise
+//@ pred rlpAt(k) := old(evcount("rlpRead")) + k
+//@ func (*ValuePredicate).DecodeRLP
+//@   requires p != nil && s != nil
+//@   assigns self.Op, self.IntArgs, self.ByteArgs
+//@   ensures ret0 == nil ==> (p.Op <= 5 && len(p.IntArgs) == nInt(p.Op) && len(p.ByteArgs) == nByte(p.Op))
+//@   ensures ret0 == nil ==> evcount("rlpRead") == rlpAt(3 + nInt(p.Op) + nByte(p.Op))
+//@   ensures ret0 == nil ==> (evarg("rlpRead", 0, rlpAt(0)) == 0 && evarg("rlpRead", 0, rlpAt(1)) == 1 && evarg("rlpRead", 1, rlpAt(1)) == p.Op && evarg("rlpRead", 0, rlpAt(2 + nInt(p.Op) + nByte(p.Op))) == 4)
+//@   ensures ret0 == nil ==> (forall k :: 0 <= k && k < nInt(p.Op) ==> (evarg("rlpRead", 0, rlpAt(2 + k)) == 2 && evarg("rlpRead", 1, rlpAt(2 + k)) == p.IntArgs[k]))
+//@   ensures ret0 == nil ==> (forall k :: 0 <= k && k < nByte(p.Op) ==> (evarg("rlpRead", 0, rlpAt(2 + nInt(p.Op) + k)) == 3 && evarg("rlpRead", 1, rlpAt(2 + nInt(p.Op) + k)) == arrof(p.ByteArgs[k])))
+//@   invariant@1 len(intArgs) == i && 0 <= i && i <= nInt(op) && evcount("rlpRead") == rlpAt(2 + i)
+//@   invariant@1 evarg("rlpRead", 0, rlpAt(0)) == 0 && evarg("rlpRead", 0, rlpAt(1)) == 1 && evarg("rlpRead", 1, rlpAt(1)) == op
+//@   invariant@1 forall k :: 0 <= k && k < i ==> (evarg("rlpRead", 0, rlpAt(2 + k)) == 2 && evarg("rlpRead", 1, rlpAt(2 + k)) == intArgs[k])
+//@   invariant@2 len(intArgs) == nInt(op) && len(byteArgs) == i && 0 <= i && i <= nByte(op) && evcount("rlpRead") == rlpAt(2 + nInt(op) + i)
+//@   invariant@2 evarg("rlpRead", 0, rlpAt(0)) == 0 && evarg("rlpRead", 0, rlpAt(1)) == 1 && evarg("rlpRead", 1, rlpAt(1)) == op
+//@   invariant@2 forall k :: 0 <= k && k < nInt(op) ==> (evarg("rlpRead", 0, rlpAt(2 + k)) == 2 && evarg("rlpRead", 1, rlpAt(2 + k)) == intArgs[k])
+//@   invariant@2 forall k :: 0 <= k && k < i ==> (evarg("rlpRead", 0, rlpAt(2 + nInt(op) + k)) == 3 && evarg("rlpRead", 1, rlpAt(2 + nInt(op) + k)) == arrof(byteArgs[k]))
+//@   opt content=precise
+//@
 //@ // ---- C06 / C05: signatures on released keys, Shutter-service flavour --------------------------------
 //@ const MAXMSG = 1048576
 //@ pred wfKeysS(keys) := keys != nil && len(keys.Keys) <= MAXMSG && (forall i :: 0 <= i && i < len(keys.Keys) ==> keys.Keys[i] != nil)
